@@ -34,8 +34,8 @@ def silu(input, mult, **_):
 def silu_glu(input, gate, mult, **_):
     return input * (F.silu(gate * mult) / mult)
 
-def softmax(input, dim, dtype, mult, **_):
-    return F.softmax(input * mult, dim=dim, dtype=dtype)
+def softmax(input, dim, dtype, mult, _stacklevel=3, **_):
+    return F.softmax(input * mult, dim=dim, _stacklevel=_stacklevel, dtype=dtype)
 
 def dropout(input, p, training, **_):
     return F.dropout(input, p, training, False)
